@@ -79,6 +79,8 @@ func t2showGlyph(g *cff.Glyph) string {
 		t2unitsList(g.VStem), strings.Join(cmds, ";"))
 }
 
+var t2wfExpect = map[string]string{}
+
 // ---------------------------------------------------------------- case line <-> environment
 
 type t2env struct {
@@ -164,6 +166,13 @@ func init() {
 	}
 	ops["t2.dec"] = dec
 	ops["t2.spec"] = dec
+	ops["t2.wf"] = func(f Fields) string {
+		// the generator's claim (recorded at generation time); a replayed line without a claim is "nowf"
+		if d, ok := t2wfExpect[f["code"]]; ok {
+			return d
+		}
+		return "nowf"
+	}
 	ops["t2.rejects"] = func(f Fields) string {
 		_, err := t2run(f)
 		if err != nil {
@@ -224,6 +233,9 @@ type t2g struct {
 	nest  int
 	nsubr int // subroutines used so far
 	small bool
+	pure  bool // stay inside the static grammar: no subroutines, no value-dependent operators, canonical literals
+	noWF  bool // outside the static grammar WF of Spec/T2.lean (subroutine, value-dependent operator, non-canonical or big literal)
+	noAgr bool // uses add / sub / mul / flex1 / hflex1 (outside `Agrees`)
 }
 
 func (g *t2g) emit(b ...byte) { g.buf = append(g.buf, b...) }
@@ -259,8 +271,14 @@ func (g *t2g) value() int64 {
 // lit pushes a literal operand
 func (g *t2g) lit(v int64) {
 	form := 0
-	if g.r.Chance(1, 12) {
+	if !g.pure && g.r.Chance(1, 12) {
 		form = g.r.Range(1, 2)
+	}
+	if form == 1 && v%65536 == 0 && v >= -1131*65536 && v <= 1131*65536 {
+		g.noWF = true // 28-form of a small integer: not the canonical code `encode` produces
+	}
+	if v > 32000*65536 || v < -32000*65536 {
+		g.noWF = true
 	}
 	b := t2num(v, form)
 	g.c.Stat("t2.operand-encoding", fmt.Sprint(len(b), "-byte"))
@@ -287,11 +305,16 @@ func (g *t2g) operand(v int64) {
 	r := g.r
 	st := func(n string) { g.c.Stat("t2.expression", n) }
 	small := func(x int64) bool { return x > -32000*65536 && x < 32000*65536 }
-	switch r.Intn(17) {
+	k := r.Intn(17)
+	if g.pure && (k == 4 || k == 5 || k == 8 || k == 11 || k == 12 || k >= 14) {
+		k = Pick(r, []int{2, 3, 6, 7, 9, 10, 13})
+	}
+	switch k {
 	case 0:
 		a := g.value()
 		if small(v - a) {
 			st("add")
+			g.noAgr = true
 			g.operand(a)
 			g.operand(v - a)
 			g.opb(0x0c0a)
@@ -302,6 +325,7 @@ func (g *t2g) operand(v int64) {
 		a := g.value()
 		if small(a - v) {
 			st("sub")
+			g.noAgr = true
 			g.operand(a)
 			g.operand(a - v)
 			g.opb(0x0c0b)
@@ -328,6 +352,7 @@ func (g *t2g) operand(v int64) {
 		b := Pick(r, []int64{2, 4, -2, 8, 1, -1, 256})
 		if small(v * b) {
 			st("div")
+			g.noWF = true
 			g.operand(v * b)
 			g.lit(b * 65536)
 			g.opb(0x0c0c)
@@ -337,6 +362,7 @@ func (g *t2g) operand(v int64) {
 	case 5:
 		if v >= 0 && v%65536 == 0 && v/65536 <= 170 {
 			st("sqrt")
+			g.noWF = true
 			k := v / 65536
 			g.operand(k * k * 65536)
 			g.opb(0x0c1a)
@@ -358,6 +384,7 @@ func (g *t2g) operand(v int64) {
 		return
 	case 8:
 		st("put-get")
+			g.noWF = true
 		m := int64(r.Range(0, 31))
 		g.operand(v)
 		g.lit(m * 65536)
@@ -426,6 +453,7 @@ func (g *t2g) operand(v int64) {
 		}
 	case 11:
 		st("index")
+			g.noWF = true
 		// v x y  2 index -> v x y v ; then keep only the copy: exch drop exch drop ... simpler: v 0 index exch drop
 		g.operand(v)
 		i := int64(0)
@@ -440,6 +468,7 @@ func (g *t2g) operand(v int64) {
 		return
 	case 12:
 		st("roll")
+			g.noWF = true
 		// v x y 3 1 roll -> y v x ; drop -> y v ; exch drop -> v
 		g.operand(v)
 		g.lit(g.value())
@@ -465,6 +494,7 @@ func (g *t2g) operand(v int64) {
 		if (!g.dOK || g.big) && g.nest == 1 {
 			// mul: Go and the specification disagree (defect #18); V stream only
 			st("mul")
+			g.noAgr = true
 			g.dOK = false
 			g.lit(g.value())
 			g.lit(g.value())
@@ -476,6 +506,7 @@ func (g *t2g) operand(v int64) {
 		if g.env.ns > 0 || g.env.ng > 0 {
 			// the operand comes out of a subroutine: `v return`
 			st("subr-operand")
+			g.noWF = true
 			save := g.buf
 			g.buf = nil
 			g.operand(v)
@@ -523,6 +554,7 @@ func (g *t2g) call(body []byte) {
 	}
 	g.env.setSubr(glob, idx, body)
 	g.nsubr++
+	g.noWF = true
 	g.lit(int64(idx-t2bias(n)) * 65536)
 	g.depth--
 	if glob {
@@ -629,12 +661,14 @@ func (g *t2g) pathOp() {
 		g.opb(0x0c23)
 	case 13:
 		name = "hflex1"
+		g.noAgr = true
 		g.small = true
 		g.operands(9)
 		g.small = false
 		g.opb(0x0c24)
 	default:
 		name = "flex1"
+		g.noAgr = true
 		// literal operands so that the generator knows the sums
 		var a [11]int64
 		for i := range a {
@@ -694,6 +728,8 @@ type t2prog struct {
 	env   *t2env
 	dOK   bool
 	nsubr int
+	wf    bool
+	agr   bool
 }
 
 var t2tableSizes = []int{0, 0, 0, 1, 2, 5, 107, 108, 1239, 1240, 1241, 33899, 33900, 40000}
@@ -701,7 +737,8 @@ var t2tableSizes = []int{0, 0, 0, 1, 2, 5, 107, 108, 1239, 1240, 1241, 33899, 33
 func genT2prog(c *Ctx, big bool) t2prog {
 	r := c.Rng
 	env := newT2env()
-	if r.Chance(2, 3) {
+	pure := !big && r.Chance(1, 3)
+	if !pure && r.Chance(2, 3) {
 		env.ns = Pick(r, t2tableSizes)
 		env.ng = Pick(r, t2tableSizes)
 	}
@@ -714,7 +751,7 @@ func genT2prog(c *Ctx, big bool) t2prog {
 			env.nw += int64(r.Range(0, 65535))
 		}
 	}
-	g := &t2g{r: r, c: c, env: env, dOK: true, exact: true, big: big, arith: Pick(r, []int{0, 0, 10, 30})}
+	g := &t2g{r: r, c: c, env: env, dOK: true, exact: true, big: big, pure: pure, arith: Pick(r, []int{0, 0, 10, 30})}
 
 	// width: present on the first stack-clearing operator
 	hasWidth := r.Bool()
@@ -832,7 +869,7 @@ func genT2prog(c *Ctx, big bool) t2prog {
 	g.emit(14)
 	c.Stat("t2.program-bytes", bucket(len(g.buf)))
 	c.Stat("t2.subrs-used", bucket(g.nsubr))
-	return t2prog{code: g.buf, env: env, dOK: g.dOK, nsubr: g.nsubr}
+	return t2prog{code: g.buf, env: env, dOK: g.dOK, nsubr: g.nsubr, wf: !g.noWF, agr: !g.noAgr}
 }
 
 // chain builds d nested subroutines around `inner`; the outermost call is returned
@@ -911,6 +948,21 @@ func genT2(c *Ctx) {
 			p := genT2prog(c, i%10 == 4)
 			out := c.Case(Verdict, "t2.dec", p.env.args(p.code), len(p.code) > 8)
 			t2outClass(c, "t2.outcome-wellformed", out)
+			// is the program inside the domain of the theorems C05_progress / C05_quirks_irrelevant?  The
+			// generator's own claim must coincide with the Lean checker (wfCheck / agreesCheck) run by the driver.
+			dom := "nowf"
+			switch {
+			case p.wf && p.agr:
+				dom = "wf agrees"
+				c.Stat("t2.theorem-domain", "WF and Agrees (C05_progress + C05_quirks_irrelevant apply)")
+			case p.wf:
+				dom = "wf"
+				c.Stat("t2.theorem-domain", "WF only (C05_progress applies; add/sub/mul/flex1/hflex1 present)")
+			default:
+				c.Stat("t2.theorem-domain", "outside WF (subroutines, div/sqrt/put/get/index/roll, non-canonical or big literal)")
+			}
+			t2wfExpect[hx(p.code)] = dom
+			c.Case(Verdict, "t2.wf", "code="+hx(p.code), len(p.code) > 8)
 			if p.dOK {
 				c.Case(Direct, "t2.spec", p.env.args(p.code), len(p.code) > 8)
 				if !strings.HasPrefix(out, "ok") {
